@@ -45,7 +45,8 @@ class CallVarsExtractor:
         return expr.name
 
     def visitLazyValue(self, expr):  # pylint: disable = unused-argument
-        return ""
+        # A literal is not a variable. It used to be reported as the variable named ""
+        return []
 
     def visitLazyCall(self, expr):
         args = list(flatten_list([arg.accept(self) for arg in expr.args]))
